@@ -18,6 +18,7 @@ Tie:      `pre`   function level: md5(model pre-image) == tokenize(...) on gener
 from __future__ import annotations
 
 import copy
+import hashlib
 import json
 import os
 import pickle
@@ -30,8 +31,8 @@ from props import _token_util as U
 PROP = "C12"
 READY = True
 DRIVER = "dm_token"
-LEAN_MODULES = ["DaskModel.Props.C12"]
-TABLES = ["TokenDispatch"]
+LEAN_MODULES = ["DaskModel.Props.C12", "DaskModel.Props.C12Pandas", "DaskModel.Props.C12Registry", "DaskModel.Props.C12Pickle"]
+TABLES = ["TokenDispatch", "TokenRegistry"]
 CASE_TIMEOUT_S = 240   # the `fresh` case starts new interpreters (slow imports on a loaded machine); nothing else comes close
 LEVEL_TEXT = ("Lean proof over the modelled normaliser (ints, bools, floats, str, bytes, None, nested list/tuple/dict/"
               "set, 0-d / strided n-d numeric arrays, object arrays of str): norm is injective up to the structural "
@@ -375,7 +376,58 @@ CATALOG = [
     ("np.array(['ab', 'c'])", "U:ab,c"), ("np.array(['a', 'bc'])", "U:a,bc"), ("np.array([b'ab', b'c'])", "S:ab,c"),
     ("np.array(['2000-01-01', '2000-01-02'], dtype='M8[D]')", "M8D:1,2"), ("np.array(['2000-01-01', '2000-01-02'], dtype='M8[ns]')", "M8ns:1,2"),
     ("np.rec.fromarrays([[1, 2], [3., 4.]], names='a,b')", "rec:ab"), ("np.rec.fromarrays([[1, 2], [3., 4.]], names='a,c')", "rec:ac"),
+    # pandas objects reached by different construction routes: the internal layout (blocks, views, strides, memory order)
+    # differs, the observable frame / series / index does not
+    ("pd.DataFrame({'a': [1, 2], 'b': [3, 4], 'c': [5, 6]})", "frame:abc"), ("_df_setitem()", "frame:abc"), ("_df_setitem().copy()", "frame:abc"),
+    ("pd.concat([pd.DataFrame({'a': [1, 2]}), pd.DataFrame({'b': [3, 4], 'c': [5, 6]})], axis=1)", "frame:abc"),
+    ("pd.DataFrame(np.array([[1, 3, 5], [2, 4, 6]]), columns=list('abc'))", "frame:abc"),
+    ("pd.DataFrame(np.asfortranarray(np.array([[1, 3, 5], [2, 4, 6]])), columns=list('abc'))", "frame:abc"),
+    ("pd.DataFrame({'a': [1, 2, 9], 'b': [3, 4, 9], 'c': [5, 6, 9]}).iloc[:2]", "frame:abc"),
+    ("pd.DataFrame({'c': [5, 6], 'b': [3, 4], 'a': [1, 2]})[['a', 'b', 'c']]", "frame:abc"),
+    ("pd.DataFrame({'a': [1, 2], 'b': [3, 4], 'c': [5, 6]}).T.T", "frame:abc"),
+    ("pd.DataFrame({'a': [1, 2], 'b': [3, 4], 'c': [5, 7]})", "frame:abc7"), ("pd.DataFrame({'a': [1, 2], 'c': [3, 4], 'b': [5, 6]})", "frame:acb"),
+    ("pd.DataFrame({'a': [1, 2], 'b': [3, 4], 'c': [5., 6.]})", "frame:abc-f"), ("_df_mixed_setitem()", "frame:abc-f"),
+    ("pd.DataFrame({'a': [1, 2], 'b': [3, 4], 'c': [5, 6]}, index=[1, 2])", "frame:abc-i12"),
+    ("pd.DataFrame({'a': [1, 2], 'x': ['u', 'v'], 'b': [3, 4]})", "frame:axb"), ("_df_axb_setitem()", "frame:axb"),
+    ("pd.Series([1, 2, 3])", "ser:123"), ("pd.Series(np.array([1, 2, 3]))", "ser:123"), ("pd.Series([1, 2, 3, 4]).iloc[:3]", "ser:123"),
+    ("pd.Series([3, 2, 1]).iloc[::-1].reset_index(drop=True)", "ser:123"), ("pd.DataFrame({'a': [1, 2, 3], 'b': [4, 5, 6]})['a'].rename(None)", "ser:123"),
+    ("pd.Series([1, 2, 3], name='a')", "ser:123-a"), ("pd.DataFrame({'a': [1, 2, 3], 'b': [4, 5, 6]})['a']", "ser:123-a"),
+    ("pd.DataFrame(np.array([[1, 4], [2, 5], [3, 6]]), columns=['a', 'b'])['a']", "ser:123-a"),
+    ("pd.Series([1, 2, 3], index=[0, 1, 2])", "ser:123-i"), ("pd.Series([1., 2., 3.])", "ser:123f"),
+    ("pd.Series(['a', 'b'], dtype=object)", "ser:ab-o"), ("pd.Series(['a', 'b', 'c'], dtype=object).iloc[:2]", "ser:ab-o"),
+    ("pd.Series(['a', 'b'])", "ser:ab-str"), ("pd.Series(['a', 'b', 'c']).iloc[:2]", "ser:ab-str"), ("pd.Series(['a', 'c'])", "ser:ac-str"),
+    ("pd.Index(['a', 'b'])", "idx:ab-str"), ("pd.Index(['b', 'a'])[::-1]", "idx:ab-str"),
+    ("pd.Index([1, 2, 3])", "idx:123"), ("pd.Index(np.array([3, 2, 1]))[::-1]", "idx:123"), ("pd.Index([1, 2, 3, 4])[:3]", "idx:123"),
+    ("pd.Index([0, 1, 2])", "idx:012"), ("pd.RangeIndex(3)", "ridx:0,3,1"), ("pd.RangeIndex(0, 3, 1)", "ridx:0,3,1"),
+    ("pd.Index(['a', 'b'], dtype=object)", "idx:ab-o"), ("pd.Index(['b', 'a'], dtype=object)[::-1]", "idx:ab-o"),
+    ("pd.MultiIndex.from_tuples([(1, 'a'), (2, 'b')])", "mi:1a2b"), ("pd.MultiIndex.from_arrays([[1, 2], ['a', 'b']])", "mi:1a2b"),
+    ("pd.MultiIndex.from_tuples([(1, 'a'), (2, 'b'), (3, 'c')])[:2]", "mi:1a2b-unused-level"),
+    ("pd.MultiIndex.from_tuples([(1, 'a'), (2, 'a')])", "mi:1a2a"),
+    ("pd.Categorical(['a', 'b', 'a'])", "cat:aba"), ("pd.Categorical(['a', 'b', 'a', 'b'])[:3]", "cat:aba"),
+    ("pd.Categorical.from_codes([0, 1, 0], ['a', 'b'])", "cat:aba"), ("pd.Categorical(['a', 'b', 'b'])", "cat:abb"),
 ]
+
+
+def _df_setitem():
+    import pandas as pd
+    df = pd.DataFrame({"a": [1, 2], "b": [3, 4]})
+    df["c"] = [5, 6]
+    return df
+
+
+def _df_mixed_setitem():
+    import pandas as pd
+    df = pd.DataFrame({"a": [1, 2]})
+    df["b"] = [3, 4]
+    df["c"] = [5.0, 6.0]
+    return df
+
+
+def _df_axb_setitem():
+    import pandas as pd
+    df = pd.DataFrame({"a": [1, 2], "b": [3, 4]})
+    df.insert(1, "x", ["u", "v"])
+    return df
 _CATKEY = dict(CATALOG)
 
 
@@ -409,7 +461,8 @@ def _cat_value(src):
     import dask
     import tlz as toolz
     ns = dict(np=np, pd=pd, dask=dask, toolz=toolz, operator=operator, functools=functools, collections=collections,
-              types=types, uuid=uuid, _rec_list=_rec_list, _rec_dict=_rec_dict, _rec_tuple_list=_rec_tuple_list)
+              types=types, uuid=uuid, _rec_list=_rec_list, _rec_dict=_rec_dict, _rec_tuple_list=_rec_tuple_list,
+              _df_setitem=_df_setitem, _df_mixed_setitem=_df_mixed_setitem, _df_axb_setitem=_df_axb_setitem)
     return eval(src, ns)
 
 
@@ -508,7 +561,161 @@ def case_opq(ctx, inp):
             ctx.fail(f"token changes after {name}", sig=f"nondet-{name}:{sa[0]}", observed=[ta, _tokenize(w)])
 
 
-CASES = {"pre": case_pre, "pair": case_pair, "trip": case_trip, "fresh": case_fresh, "opq": case_opq, "cat": case_cat, "rec": case_rec}
+# ----------------------------------------------------------------------------------------------
+# pandas objects: exact pre-image (Model/NormalFormPandas.lean)
+# ----------------------------------------------------------------------------------------------
+
+def _enc_pvals(arr, table):
+    import numpy as np
+    if type(arr) is np.ndarray:
+        return [Sym("np"), U.enc(arr, table)]
+    if type(arr).__name__ in ("NumpyExtensionArray", "StringArray"):
+        return [Sym("ea"), U.enc(np.asarray(arr), table), arr.dtype.name]
+    raise U.Unsupported(f"values of class {type(arr).__name__}")
+
+
+def _enc_pidx(ind, table):
+    import pandas as pd
+    if type(ind) is pd.RangeIndex:
+        return [Sym("prange"), repr(type(ind)), int(ind.start), int(ind.stop), int(ind.step), repr(ind.dtype), U.enc(ind.name, table)]
+    if type(ind) is pd.Index:
+        return [Sym("pplain"), repr(type(ind)), U.enc(ind.name, table), _enc_pvals(ind.array, table)]
+    raise U.Unsupported(f"index of class {type(ind).__name__}")
+
+
+def enc_pandas(o, table):
+    import pandas as pd
+    if isinstance(o, pd.Index):
+        return [Sym("pindex"), _enc_pidx(o, table)]
+    if type(o) is pd.Series:
+        return [Sym("pseries"), U.enc(o.name, table), repr(o.dtype), _enc_pvals(o._values, table), _enc_pidx(o.index, table)]
+    if type(o) is pd.DataFrame:
+        return [Sym("pframe"), [_enc_pvals(o.iloc[:, i]._values, table) for i in range(o.shape[1])],
+                _enc_pidx(o.columns, table), _enc_pidx(o.index, table)]
+    if type(o) is pd.Categorical:
+        return [Sym("pcat"), U.enc(o.codes, table), _enc_pidx(o.dtype.categories, table), bool(o.dtype.ordered)]
+    raise U.Unsupported(f"{type(o).__name__}")
+
+
+def case_ppre(ctx, inp):
+    """function level: md5(model pre-image) == tokenize(obj) for NumPy-backed pandas objects"""
+    o = _cat_value(inp["src"]) if "src" in inp else _build_opq(inp["spec"])
+    table = U.Table()
+    try:
+        e = enc_pandas(o, table)
+    except U.Unsupported:
+        ctx.note("ppre-unsupported")
+        return
+    pre = ctx.lean(Sym("ptokpre"), e)
+    if not isinstance(pre, str) or isinstance(pre, Sym):
+        ctx.disagree("model answered", repr(pre), None)
+        return
+    model = hashlib.md5(U.resolve(pre, table).encode(), usedforsecurity=False).hexdigest()
+    ctx.eq("tokenize(pandas object)", model, _tokenize(o))
+    ctx.branch("ppre-" + type(o).__name__)
+    vals = o._values if hasattr(o, "_values") and not hasattr(o, "columns") else None
+    if vals is not None and type(vals).__name__ in ("NumpyExtensionArray", "StringArray"):
+        ctx.branch("ppre-extension-array-values")
+
+
+class _Scripted:
+    """an object whose pickle is scripted: the i-th call of __reduce__ gives the i-th entry (None: raise)"""
+
+    def __init__(self, script):
+        self.script = list(script)
+        self.calls = 0
+
+    def __reduce__(self):
+        i = self.calls
+        self.calls += 1
+        v = self.script[min(i, len(self.script) - 1)]
+        if v is None:
+            raise RuntimeError("this pass does not pickle")
+        return (_scripted_value, (v,))
+
+
+def _scripted_value(v):
+    return ("scripted", v)
+
+
+def case_pickle(ctx, inp):
+    """_normalize_pickle on an object whose successive pickles are scripted: which digest becomes the token, and whether
+    non-determinism is reported, vs Model/PickleLoop.lean"""
+    from dask.hashing import hash_buffer_hex
+    from dask.tokenize import TokenizationError, tokenize
+    attempts = inp["attempts"]
+    script = []
+    for a in attempts:
+        script += [None, None] if a is None else [a]      # a failing pass asks twice (pickle, then cloudpickle)
+    m = ctx.lean(Sym("pickleloop"), attempts)
+    kind = str(m[0])
+    try:
+        strict = ["token", tokenize(_Scripted(script), ensure_deterministic=True)]
+    except TokenizationError:
+        strict = ["raised"]
+    import dask
+    with dask.config.set({"tokenize.ensure-deterministic": False}):
+        lax = [tokenize(_Scripted(script)), tokenize(_Scripted(script))]
+    if kind == "digest":
+        pik = hash_buffer_hex(pickle.dumps(_Scripted([m[1]]), protocol=5))
+        want = hashlib.md5(str(((pik, []),)).encode(), usedforsecurity=False).hexdigest()
+        ctx.eq("token without ensure_deterministic", [want, want], lax)
+        ctx.eq("tokenize(..., ensure_deterministic=True)", ["raised"] if m[2] else ["token", want], strict)
+        ctx.branch("pickle-flagged" if m[2] else "pickle-digest")
+    else:
+        ctx.eq("tokenize(..., ensure_deterministic=True)", ["raised"], strict)
+        if lax[0] == lax[1]:
+            ctx.disagree("an object that cannot be pickled gets a random token", "two different tokens", lax)
+        ctx.branch("pickle-random")
+
+
+def case_registry(ctx, inp):
+    """the extracted dispatch table (Generated/TokenRegistry.lean) vs the table the running interpreter holds: every
+    normaliser dask/tokenize.py registered at run time is in the extracted list under the same function name, and
+    every extracted registration (for the importable modules) is really installed"""
+    import re
+    import numpy as np
+    import pandas as pd
+    import types as _types
+    from collections import OrderedDict
+    from functools import partial
+    from tlz import curry
+    from tlz.functoolz import Compose
+    import dask.tokenize as T
+    from dask.core import literal
+    T.tokenize(np.zeros(1)), T.tokenize(pd.Series([1]))      # run the lazy registrations
+    gen = os.path.join(os.path.dirname(os.path.dirname(os.path.dirname(os.path.abspath(__file__)))),
+                       "lean", "DaskModel", "Generated", "TokenRegistry.lean")
+    with open(gen) as f:
+        src = f.read()
+    entries = re.findall(r'\("((?:[^"\\]|\\.)*)", "((?:[^"\\]|\\.)*)", "((?:[^"\\]|\\.)*)"\)', src)
+    ns = dict(np=np, pd=pd, types=_types, OrderedDict=OrderedDict, partial=partial, curry=curry, Compose=Compose,
+              literal=literal, _IDENTITY_DISPATCH=T._IDENTITY_DISPATCH, object=object)
+    expected = {}
+    for expr, fn, lazy in entries:
+        if lazy in ("numba", "pyarrow"):
+            continue
+        classes = eval(expr, ns)
+        for c in (classes if isinstance(classes, tuple) else (classes,)):
+            expected[c] = fn
+    lookup = dict(T.normalize_token._lookup)
+    for c, fn in expected.items():
+        got = lookup.get(c)
+        if got is None or getattr(got, "__name__", "") != fn:
+            ctx.disagree("registered normaliser of " + repr(c), fn, getattr(got, "__name__", repr(got)))
+    for c, got in lookup.items():
+        if c in expected or getattr(got, "__module__", "") != "dask.tokenize":
+            continue
+        # `Dispatch` caches the result of an MRO walk under the subclass: it must be what the extracted table gives
+        base = next((k for k in c.__mro__ if k in expected), None)
+        if base is None or expected[base] != got.__name__:
+            ctx.disagree("a normaliser of dask/tokenize.py the extractor does not account for", None if base is None else expected[base],
+                         [repr(c), got.__name__])
+    ctx.note("registry-classes", len(expected))
+    ctx.branch("registry")
+
+
+CASES = {"pickle": case_pickle, "registry": case_registry, "ppre": case_ppre, "pre": case_pre, "pair": case_pair, "trip": case_trip, "fresh": case_fresh, "opq": case_opq, "cat": case_cat, "rec": case_rec}
 
 
 # ----------------------------------------------------------------------------------------------
@@ -672,6 +879,19 @@ def generate(ctx):
         if rng.random() < 0.5:
             e["other"] = [U.gen_rec(rng)]
         yield "rec", e
+    yield "registry", {}
+    import itertools
+    for att in itertools.product([1, 2, 3, None], repeat=3):       # every script of three passes over three digests
+        yield "pickle", {"attempts": list(att)}
+    # pandas objects: exact pre-image
+    for src, key in CATALOG:
+        if key.split(":")[0] in ("frame", "ser", "idx", "ridx", "cat"):
+            yield "ppre", {"src": src}
+    for _ in range(ctx.n(120, 1500)):
+        a_, b_, lab = _opq_specs(rng)
+        for sp in (a_, b_):
+            if sp[0] in ("series", "index", "range", "cat", "frame"):
+                yield "ppre", {"spec": sp}
     # catalogue: every entry against itself (built twice) and against the entries of its family; random cross pairs
     srcs = [s for s, _ in CATALOG]
     fams = {}
